@@ -20,7 +20,7 @@ Counter = collections.Counter
 OP_BUDGET = 80000
 SCRATCH = os.environ.get('VERIF_SCRATCH', '/var/tmp/desper-verif')
 NAMES = ['a', 'b', 'a.txt', 'a.png', 'b.txt', 'c', 'd.e.txt', 'sub', 'sub.d',
-         'empty', 'b.png']
+         'empty', 'b.png', 'e.TXT', 'a.json', 'f.tar.gz', 'sub2']
 _counter = [0]
 
 
@@ -113,7 +113,10 @@ class Interp:
             kw['nest_on_conflict'] = c['nest']
         if c.get('trim') is not None:
             kw['trim_extensions'] = c['trim']
-        self.pop = d.DirectoryResourcePopulator(self.root_dir, **kw)
+        ctor_root = self.root_dir
+        if self.cfg.get('wrong_ctor_root'):
+            ctor_root = os.path.join(self.root_dir, 'no-such-root')
+        self.pop = d.DirectoryResourcePopulator(ctor_root, **kw)
         self.ctor_nest = True if c.get('nest') is None else c['nest']
         self.ctor_trim = False if c.get('trim') is None else c['trim']
         self.rule_objs = []
@@ -188,7 +191,7 @@ class Interp:
             kw['nest_on_conflict'] = nest
         if trim is not None:
             kw['trim_extensions'] = trim
-        if opts.get('root'):
+        if opts.get('root') or self.cfg.get('wrong_ctor_root'):
             kw['root'] = self.root_dir
         # which rule (if any) must be rejected
         bad = None
@@ -418,13 +421,15 @@ def gen_tree(rng):
 
     def stem(n):
         return os.path.splitext(n)[0]
-    n = rng.randint(1, 12)
+    n = rng.randint(1, 12) if rng.random() < .8 else rng.randint(12, 22)
     taken = {'': set()}
     for _ in range(n * 3):
         if len(entries) >= n:
             break
         d = rng.choice(dirs)
         if d.count('/') >= 2 and rng.random() < .7:
+            continue
+        if d.count('/') >= 4:
             continue
         name = rng.choice(NAMES)
         is_dir = ('.' not in name or name == 'sub.d') and rng.random() < (
@@ -463,8 +468,12 @@ def generate(prop, run_seed, tier='quick', tolerate=frozenset()):
             path = crng.choice(['missing', 'sub/missing', 'a/none'])
         exts = []
         if crng.random() < .35:
-            exts = crng.sample(['.txt', '.png', '.d', ''],
-                               crng.randint(1, 2))
+            exts = crng.sample(['.txt', '.png', '.d', '', '.TXT', '.gz',
+                                '.json'], crng.randint(1, 2))
+        # other spellings of the same directory
+        if path in dirs and crng.random() < .25:
+            path = crng.choice([path + '/', './' + path,
+                                path + '/../' + path.split('/')[-1]])
         args = crng.choice([[], [], [1], ['x', 2]])
         kwargs = crng.choice([{}, {}, {'k': 1}, {'mode': 'r', 'n': 0}])
         rules.append({'path': path, 'exts': exts, 'args': args,
@@ -479,10 +488,11 @@ def generate(prop, run_seed, tier='quick', tolerate=frozenset()):
                 pre.append([rel, 'm'])
     cfg = {'policy': crng.choice(['fifo', 'lifo', 'reshuffle', 'rot']),
            'tree': tree, 'rules': rules, 'pre': pre,
+           'wrong_ctor_root': crng.random() < .15,
            'ctor': {'nest': crng.choice([None, True, False]),
                     'trim': crng.choice([None, True, False])}}
     ops = []
-    for _ in range(crng.choice([1, 1, 2, 3])):
+    for _ in range(crng.choice([1, 1, 2, 3, 4])):
         opts = {}
         if crng.random() < .35:
             opts['nest'] = crng.random() < .5
